@@ -2,6 +2,7 @@
 Require Import SF.Prelude SF.Value Gen.Gen_c16 SF.Codec.
 Require Import SF.CodecStruct.
 Require Import Proofs.CodecCsv Proofs.CodecText Proofs.CodecType Proofs.CodecRoundtrip Proofs.CodecStructFacts.
+Require Import Proofs.CodecConstants Proofs.CodecInt.
 
 (* csv.reader's state machine inverts csv.writer(QUOTE_MINIMAL) on every record: any number of fields, any
    characters except line breaks (delimiter, quote, spaces, nothing at all), any delimiter that is not the
@@ -35,6 +36,26 @@ Print Assumptions C16_decode_render_column.
 Theorem C16_delimited_roundtrip : forall c f, dom c f = true -> M_roundtrip c f = S_roundtrip c f.
 Proof. exact delimited_roundtrip. Qed.
 Print Assumptions C16_delimited_roundtrip.
+
+(* Integers: f'{z}' read by genfromtxt's int64 converter is z, for every int64 (negative, large), and the text is
+   never a Boolean -- so every non-empty int column is unambiguous (col_ok) under any store filter; Boolean
+   columns likewise. *)
+Theorem C16_int_text_roundtrip : forall z, in_int64 z = true ->
+  conv_int (render_Z z) = Some (Ok (VInt z)) /\ conv_bool (render_Z z) = None.
+Proof. exact int_text_roundtrip. Qed.
+Print Assumptions C16_int_text_roundtrip.
+
+Theorem C16_int_column_ok : forall flt vs, vs <> [] ->
+  forallb (fun v => match v with VInt z => in_int64 z | _ => false end) vs = true ->
+  col_ok flt (KInt, vs) = true.
+Proof. exact int_column_ok. Qed.
+Print Assumptions C16_int_column_ok.
+
+Theorem C16_bool_column_ok : forall flt vs, vs <> [] ->
+  forallb (fun v => match v with VBool _ => true | _ => false end) vs = true ->
+  col_ok flt (KBool, vs) = true.
+Proof. exact bool_column_ok. Qed.
+Print Assumptions C16_bool_column_ok.
 
 (* The missing-value markers of the StoreFilter defaults as they are in the source now: what the encoder writes
    for NaN / None / +inf / -inf is decoded to the same marker. *)
